@@ -340,6 +340,7 @@ impl Findings {
 
 pub struct Env<'a> {
     pub findings: &'a Findings,
+    #[allow(dead_code)]
     pub run: &'a vpc::Run,
     pub t: &'a Topo,
     pub real: &'a ScionTopology,
@@ -740,6 +741,7 @@ fn corruptions(t: &Topo, pkt: &[u8]) -> Vec<(String, Vec<u8>)> {
 #[derive(Default)]
 pub struct TopoReport {
     pub loc: Loc,
+    pub nstates: u64,
     pub pieces: usize,
     pub packets: [u64; 3],
     pub valid: usize,
@@ -1002,6 +1004,9 @@ pub fn explore_topology(run: &vpc::Run, findings: &Findings, t: &Topo, levels: u
     rep.valid_shortcut = shortcut_count.into_inner().unwrap();
     rep.corrupted = corrupted.into_inner().unwrap();
     rep.loc = total.into_inner().unwrap();
+    // keep the count, free the set (the reports of all topologies live until the end of the run)
+    rep.nstates = rep.loc.states.len() as u64;
+    rep.loc.states = StateSet::default();
     rep
 }
 
@@ -1031,7 +1036,6 @@ pub fn run(args: &vpc::Args) -> ! {
     }
     let run = vpc::Run::new(args);
     let thorough = run.tier == vpc::Tier::Thorough;
-    let max_n = if thorough { 4 } else { 3 };
     let mut topos: Vec<Topo> = vec![];
     for n in 1..=3 {
         topos.extend(reftopo_enum::enumerate(n, 2));
@@ -1059,11 +1063,22 @@ pub fn run(args: &vpc::Args) -> ! {
     }
     let ntopos = topos.len();
     let findings = Findings::default();
-    let reports: Vec<(String, TopoReport)> = topos.par_iter().map(|t| (t.name.clone(), explore_topology(&run, &findings, t, 3, thorough))).collect();
+    let done = std::sync::atomic::AtomicUsize::new(0);
+    let reports: Vec<(String, TopoReport)> = topos
+        .par_iter()
+        .map(|t| {
+            let r = explore_topology(&run, &findings, t, 3, thorough);
+            let d = done.fetch_add(1, std::sync::atomic::Ordering::Relaxed) + 1;
+            if std::env::var("VP_DEBUG").is_ok() && d % 50 == 0 {
+                eprintln!("[{:.0}s] {d}/{ntopos} topologies", run.elapsed_s());
+            }
+            (t.name.clone(), r)
+        })
+        .collect();
 
     if std::env::var("VP_DEBUG").is_ok() {
         for (name, r) in &reports {
-            eprintln!("{name}: pieces={} packets={:?} valid={} corrupted={} walks={} transitions={} states={}", r.pieces, r.packets, r.valid, r.corrupted, r.loc.walks, r.loc.transitions, r.loc.states.len());
+            eprintln!("{name}: pieces={} packets={:?} valid={} corrupted={} walks={} transitions={} states={}", r.pieces, r.packets, r.valid, r.corrupted, r.loc.walks, r.loc.transitions, r.nstates);
         }
     }
     let mut states = 0u64;
@@ -1078,7 +1093,7 @@ pub fn run(args: &vpc::Args) -> ! {
             skipped.push(json!({"topology": name, "why": s}));
             continue;
         }
-        states += r.loc.states.len() as u64;
+        states += r.nstates;
         transitions += r.loc.transitions;
         walks += r.loc.walks;
         for k in 0..3 {
